@@ -151,7 +151,7 @@ def check(case):
             with cm.quiet():
                 got = np.asarray(mod["rhs"](pt["t"], s, p), dtype=float)
         except Exception as e:  # noqa: BLE001
-            sig = f"C01:rhs-raises:{cm.exc_name(e)}"
+            sig = f"C01:rhs-raises:{cm.exc_name(e)}" + (f":{cm.msg_key(e)}" if isinstance(e, NameError) else "")
             if ref.boolean_used_arithmetically():  # NumPy computes with booleans / integers there (`2**-int`): territory + message key
                 sig += f":boolean-used-arithmetically:{cm.msg_key(e)}"
             add(sig, "generated rhs raises at a point where the model is defined", inp, want, cm.exc_name(e), cm.short(e), base=sig)
